@@ -240,6 +240,89 @@ func c12Sequential(c *explore.Ctx) {
 	}
 }
 
+// c12Reuse: a backup directory is used again much later. W1, Backup(bak), W2, Backup(bak) for every W1 of a small
+// list and every W2 of length <= d over writes, Compact and Reopen: between the two backups the log can be emptied
+// and compacted away, the process restarted (sequence ids start over, segment names are used again) and reloaded
+// with records of the same size. The second backup must open to exactly the contents at the second call.
+func c12Reuse(c *explore.Ctx) {
+	type sp struct {
+		base, cfg string
+		depth     int
+	}
+	spaces := []sp{{"E", "ROLL1", 5}, {"E", "ROLL", 4}}
+	if c.Thorough() {
+		spaces = []sp{{"E", "ROLL1", 6}, {"E", "ROLL", 6}, {"S2", "ROLL1", 5}}
+	}
+	for _, x := range spaces {
+		base, err := explore.GetBase(x.base, cfgByName(x.cfg), 0)
+		if err != nil {
+			c.HarnessError("%v", err)
+		}
+		explore.PinSeed(0)
+		pa, pb := explore.Op{Kind: explore.Put, Key: "a"}, explore.Op{Kind: explore.Put, Key: "b"}
+		letters := []explore.Op{pa, pb, {Kind: explore.Delete, Key: "a"}, {Kind: explore.Delete, Key: "b"}, {Kind: explore.Compact}, {Kind: explore.Reopen}}
+		for _, w1 := range [][]explore.Op{{pa}, {pa, pb}, {pa, pb, pa}} {
+			x, w1 := x, w1
+			enumWords(c, letters, x.depth, func(w2 []explore.Op, _ int) bool {
+				if c.Expired() {
+					return false
+				}
+				if len(w2) != x.depth {
+					return true // shorter middles are prefixes of these with a different tail; depth-exact keeps the space flat
+				}
+				word := append(append(append([]explore.Op(nil), w1...), explore.Op{Kind: explore.Backup}), w2...)
+				word = append(word, explore.Op{Kind: explore.Backup})
+				s := base.NewSess()
+				s.FixedBackupDir = "bak"
+				mk := func(msg string) bool {
+					return !c.Violation(explore.Violation{
+						Key:    fmt.Sprintf("reuse base=%s cfg=%s word=%s", x.base, x.cfg, explore.WordString(word)),
+						What:   fmt.Sprintf("base %s/%s, [%s] (no concurrency; both backups go to the same directory): %s", x.base, x.cfg, explore.WordString(word), msg),
+						Size:   len(word),
+						Replay: map[string]interface{}{"kind": "seq12", "base": x.base, "cfg": x.cfg, "word": opsJSON(word), "fixed_dir": "bak", "observed": msg},
+					})
+				}
+				if err := s.OpenDB(); err != nil {
+					return mk("Open: " + err.Error())
+				}
+				defer func() {
+					if s.DB != nil {
+						_ = s.DB.Close()
+					}
+				}()
+				c.Add("executions", 1)
+				c.Add("reuse_words", 1)
+				for i, o := range word {
+					err := s.Apply(o)
+					c.Add("transitions", 1)
+					if s.Panicked != "" {
+						return mk(s.Panicked)
+					}
+					if i != len(word)-1 {
+						continue
+					}
+					if err != nil {
+						return mk("Backup returned error: " + err.Error())
+					}
+					img := s.FS.SubImage(s.LastBackup, explore.DBPath)
+					c.Distinct("backup_image", explore.Hash64("reuse", x.base, x.cfg, img.Hash()))
+					rec := explore.RecoverImage(img, base.Cfg, base.Keys, base.Probe, base.Seed, explore.RecoverOpts{})
+					c.Add("backups_opened", 1)
+					switch {
+					case rec.OpenErr != "":
+						return mk("Open of the backup failed: " + rec.OpenErr)
+					case rec.Internal != "":
+						return mk("the opened backup is inconsistent: " + rec.Internal)
+					case !s.Model.Equal(rec.Contents):
+						return mk("the opened backup does not hold the contents the database had when Backup was called: " + s.Model.Diff(rec.Contents, s.KeyName))
+					}
+				}
+				return true
+			})
+		}
+	}
+}
+
 // c12FailedBackup: "the source database is not affected by the backup" - also not by one that fails. A transient
 // I/O error is injected at each mutating file-system call of Backup; afterwards the source must be fully usable:
 // Compact is not refused, a Put works, a second Backup succeeds and opens to exactly the model.
@@ -278,9 +361,21 @@ func c12FailedBackup(c *explore.Ctx) {
 			c.Add("executions", 1)
 			c.Add("failed_backup_probes", 1)
 			c.Add("transitions", 5)
-			_ = berr
 			bad := ""
-			if err := s.Apply(explore.Op{Kind: explore.Compact}); err != nil {
+			if berr == nil {
+				// Backup reported success in spite of the failed file-system call: the directory it produced must
+				// then be a complete backup
+				c.Add("faulted_backups_reporting_success", 1)
+				rec := explore.RecoverImage(s.FS.SubImage(s.LastBackup, explore.DBPath), base.Cfg, base.Keys, base.Probe, base.Seed, explore.RecoverOpts{})
+				switch {
+				case rec.OpenErr != "":
+					bad = "Backup returned nil, the backup does not open: " + rec.OpenErr
+				case rec.Internal != "" || !s.Model.Equal(rec.Contents):
+					bad = "Backup returned nil, the backup does not hold the contents of the source: " + rec.Internal + " " + s.Model.Diff(rec.Contents, s.KeyName)
+				}
+			}
+			if bad != "" {
+			} else if err := s.Apply(explore.Op{Kind: explore.Compact}); err != nil {
 				bad = "Compact returned error: " + err.Error()
 			} else if err := s.Apply(explore.Op{Kind: explore.Put, Key: "a"}); err != nil {
 				bad = "Put returned error: " + err.Error()
@@ -315,6 +410,10 @@ func runC12(c *explore.Ctx) {
 		return
 	}
 	c12Sequential(c)
+	if c.Expired() || c.NViolations() > 0 {
+		return
+	}
+	c12Reuse(c)
 	if c.Expired() || c.NViolations() > 0 {
 		return
 	}
